@@ -396,6 +396,38 @@ class Item:
                          "signature": " ".join(texts(sig)), "why": why,
                          "drops": "the rest of the enclosing function; captured variables become parameters"})
 
+    def abstract_span(self, anchor_src, nth, tail_src, rep_src, why=""):
+        """Replace `anchor` + the bracket group that directly follows it + the literal `tail` tokens by the
+        replacement (a call to a declared stand-in).  Unlike `replace`, the content of the group is not
+        spelled out in the spec, so edits inside it do not lose the anchor -- and are not checked by this
+        unit (the log says so)."""
+        pat = texts(tokenize(anchor_src))
+        hits = [h for h in find_seq(self.toks, pat) if all(self.toks[h + k].line != 0 for k in range(len(pat)))]
+        if len(hits) < nth or nth < 1:
+            raise LostAnchor("abstract-span: anchor `%s` occurs %d times in %s, wanted #%d"
+                             % (" ".join(pat), len(hits), self.path, nth))
+        h = hits[nth - 1]
+        b = h + len(pat)
+        if b >= len(self.toks) or self.toks[b].s not in ("(", "{", "["):
+            raise LostAnchor("abstract-span: anchor `%s` in %s is not followed by a bracket group" % (" ".join(pat), self.path))
+        c = match_close(self.toks, b)
+        tail = texts(tokenize(tail_src)) if tail_src else []
+        if texts(self.toks[c + 1:c + 1 + len(tail)]) != tail:
+            raise LostAnchor("abstract-span: group after `%s` in %s is not followed by `%s`"
+                             % (" ".join(pat), self.path, " ".join(tail)))
+        e = c + 1 + len(tail)
+        rep = tokenize(rep_src)
+        line = self.toks[h].line
+        ws = self.toks[h].ws
+        new = [Tok(t.ws, t.s, line) for t in rep]
+        if new:
+            new[0].ws = ws if ws else " "
+        inner = render(self.toks[b:c + 1]).strip()
+        self.toks[h:e] = new
+        self.log.append({"kind": "abstract-span", "anchor": " ".join(pat), "nth": nth, "tail": " ".join(tail),
+                         "replace": " ".join(texts(rep)), "why": why,
+                         "drops": "%d characters of code inside the group are not checked by this unit" % len(inner)})
+
     def insert_at_signature(self, text):
         o = self.body_open()
         ins = tokenize("\n" + text + "\n")
